@@ -221,7 +221,7 @@ def run(ctx):
     # known finding: the example generator ignores the word-boundary assertions \b and \B (its example for /\Bfoo/ is "foo"), so the example of such a type may not
     # match and Check of a schema using the type then fails on the generated example
     ctx.classifiers["regex_example_word_boundary"] = lambda case: isinstance(case, str) and re.search(r"\\[bB]", case) is not None
-    pats = [rand_pattern(rng) for _ in range(1200 if quick else 6000)] + ["a\\\\", "^C:\\\\", "a\\/b", "[a-c]+\\\\", "[^\\x00-\\x7F]+", "^[^\\x00-\\x7f]$", "[\\x{D7FF}-\\x{E000}]", "a[\\x{D000}-\\x{EFFF}]", "\\Bfoo", "foo\\B", "^\\B\\d{3}$", "a\\bb?", "\\bx\\b"]
+    pats = [rand_pattern(rng) for _ in range(1200 if quick else 6000)] + ["a\\\\", "^C:\\\\", "a\\/b", "[a-c]+\\\\", "[^\\x00-\\x7F]+", "^[^\\x00-\\x7f]$", "[\\x{D7FF}-\\x{E000}]", "a[\\x{D000}-\\x{EFFF}]", "\\Bfoo", "foo\\B", "^\\B\\d{3}$", "a\\bb?", "\\bx\\b", ""]          # the empty pattern: the token // (the inline rule {regex: ""} matches every string)
     rlines = [json.dumps({"text": "/%s/%s" % (p, rng.choice(["", " trailing text", "\nNEXT /x/"]))}) for p in pats]
     routs = vc.impl_parallel(["regextype"], rlines)
     mlines = [json.loads(l)["text"].encode().hex() for l in rlines]
